@@ -250,6 +250,14 @@ fn rep_owed_reply(ctx: &mut Ctx) {
     }
 }
 
+/// the component simulation of the fair queue (3.9): in a third of its runs the receiving end is
+/// taken over now and then by a new waker, which is what an abandoned recv followed by a recv in
+/// another task (or under a combinator with its own wakers) looks like to the queue
+fn l1_takeover(ctx: &mut Ctx) {
+    crate::l1::TAKEOVER_HEAVY.with(|c| c.set(true));
+    crate::l1::run(ctx);
+}
+
 #[derive(Default)]
 struct ReqLog {
     events: Vec<String>,
@@ -421,6 +429,7 @@ pub fn def() -> PropDef {
         strata: vec![
             Stratum { name: "cancel_world", quick: 120_000, thorough: (2_000_000) * 3, exhaustive: (false, false), run: cancel_world, what: "PULL/SUB/DEALER/ROUTER/REP/XPUB with abandoned recvs; C05 oracle" },
             Stratum { name: "release_after_abandoned_recv", quick: 40_000, thorough: 2_000_000, exhaustive: (false, false), run: release_after_abandoned_recv, what: "a peer closes, another peer's admission is held up, a recv is abandoned after k polls: the closed peer is still released later, nothing is lost, SUB can still subscribe" },
+            Stratum { name: "l1_takeover", quick: 200_000, thorough: 10_000_000, exhaustive: (false, false), run: l1_takeover, what: "fair-queue component simulation: a poll is abandoned and the next one comes under another waker (another task, FuturesUnordered): whoever polled last is the one that is woken" },
             Stratum { name: "rep_owed_reply", quick: 30_000, thorough: 1_500_000, exhaustive: (false, false), run: rep_owed_reply, what: "REP: with a reply owed, a further recv is abandoned after k polls: the owed reply is still accepted and reaches its requester" },
             Stratum { name: "req_abandon", quick: 60_000, thorough: (1_000_000) * 3, exhaustive: (false, false), run: req_abandon, what: "REQ protocol state after an abandoned recv" },
         ],
